@@ -414,7 +414,7 @@ func (f *frame) flow(from, to *ssa.BasicBlock, cond *Term, st *State, edges map[
 		return
 	}
 	// name the edge condition
-	if len(cond.Args) > 0 {
+	if len(cond.Args) > 0 && c.noNaming == 0 {
 		ec := c.fresh(fmt.Sprintf("e_%d_%d", from.Index, to.Index), SBool)
 		c.addFact(Eq(ec, cond))
 		cond = ec
@@ -491,7 +491,7 @@ func (c *FnCtx) mergeVals(vals []Val, in []edge, t types.Type, name string) Val 
 		for k := len(vals) - 2; k >= 0; k-- {
 			t = Ite(in[k].cond, vals[k].L[i], t)
 		}
-		if len(t.Args) > 0 {
+		if len(t.Args) > 0 && c.noNaming == 0 {
 			n := c.fresh(name, t.S)
 			c.addFact(Eq(n, t))
 			t = n
@@ -1026,7 +1026,9 @@ func (f *frame) exec(instr ssa.Instruction, st *State) {
 		for _, b := range t.Bindings {
 			bs = append(bs, f.val(b))
 		}
-		f.vals[t] = Val{T: t.Type(), L: []*Term{c.fresh("closure", SInt)}, Fn: fn, Bindings: bs}
+		cid := c.fresh("closure", SInt)
+		c.addFact(Gt(cid, IntT(0)))
+		f.vals[t] = Val{T: t.Type(), L: []*Term{cid}, Fn: fn, Bindings: bs}
 	case *ssa.Call:
 		f.call(t, st)
 	case *ssa.Defer:
